@@ -20,6 +20,9 @@ func (d Directive) BodyError(msg string) *jerr.JApiError {
 }
 
 func (d Directive) BodyErrorIndex(msg string, i uint) *jerr.JApiError {
+	if !d.BodyCoords.IsSet() {
+		return d.KeywordError(msg)
+	}
 	return d.makeError(msg, d.BodyCoords.File(), d.BodyCoords.begin+bytes.Index(i))
 }
 
